@@ -462,14 +462,39 @@ def _act_name(e):
     return a["n"]
 
 
-def section(chk: Check, modes: str = "ModesQuick", depth: int = 0, max_pairs: int = 3000):
-    """modes: name of a scenario set of VoiceClient_MBT (ModesQuick / ModesThorough); depth: added to every scenario's depth."""
+DEVIATIONS = {
+    "StaleSession": "Session/Participant events naming a session that is not the current one are applied to the current one "
+                    "(a late SessionRemovedEvent of the previous session wipes handle, participants and session_ready of the new one)",
+    "Outlive": "EOF on the connection and VoiceClient.close() leave the futures of outstanding requests (and the coroutines "
+               "awaiting them) pending for ever; requests are still accepted after EOF",
+    "PollDies": "a document that does not parse (unknown root element) ends VoiceClient._poll_messages: nothing the daemon "
+                "sends afterwards is handled",
+    "IdReuse": "Session.Create.1 uses the channel URI as request id: a second join_session() for the same URI while the first "
+               "create is outstanding replaces the first future, which is then never resolved",
+}
+
+
+def section(chk: Check, modes: str = "ModesQuick", depth: int = 0, max_pairs: int = 2000):
+    """modes: name of a scenario set of VoiceClient_MBT (ModesQuick / ModesThorough; ModesNoStaleSession, ModesNoOutlive,
+    ModesNoPollDies, ModesNoIdReuse replay the quick scenarios with one deviation of the pinned tree NOT modelled, i.e. they
+    show that deviation as a divergence); depth: added to every scenario's depth; max_pairs: cap on (merging edge, next edge)."""
     global _G
+    chk.assumptions += ["VoiceClient growth spec: the daemon numbers its sessions, names only sessions / participants it has "
+                        "announced, answers with the action of the request; connector creation (and, for the join scenario, "
+                        "login) is an environment prefix driven by the harness; the loop is pumped to quiescence after "
+                        "every step",
+                        "VoiceClient growth spec models these deviations of the pinned tree as they are (Bugs), the guarded "
+                        "invariants are model-checked on the same scenarios without them: "
+                        + "; ".join("%s = %s" % kv for kv in sorted(DEVIATIONS.items()))]
+    chk.cov["voiceclient_rule"] = ("non-trivial = edges that notify a subscriber, handle more than one document in one read, "
+                                   "leave the abstract state unchanged, or leave a future resolved / cancelled")
     cfg = ("SPECIFICATION MSpec\nCONSTANTS Modes <- %s Depth = %d\nVIEW MView\n%s%s"
            % (modes, depth, "".join("INVARIANT %s\n" % i for i in INVS), "".join("PROPERTY %s\n" % p for p in PROPS)))
     recs = common.export_records(chk, "VoiceClient_MBT", cfg, "VoiceClient %s +%d" % (modes, depth))
     chk.cov["tlc_runs"][-1]["invariants"] = INVS + PROPS
     g = Graph(recs)
+    if not g.edges or len(g.reachable_edges()) != len(g.edges):
+        raise MachineryError("VoiceClient export: %d edges, %d reachable" % (len(g.edges), len(g.reachable_edges())))
     _G = g
     pairs = g.merge_pairs(max_pairs) if max_pairs > 0 else []
     ids = g.reachable_edges() + pairs
